@@ -36,7 +36,9 @@ def run(tier):
         P['RM'] = 4 if tier == 'quick' else 5
         plans = {t: campaign.type_plan(J, t, P, {}) for t in sorted(J['cm'])}
         wd = tlc.workdir('emc')
-        types = sorted(plans)
+        # quick: the types with at most 6 child names (the clause set is the same for all; small alphabets keep the run
+        # short); thorough: all 94
+        types = sorted(t for t in plans if tier != 'quick' or len(J['alphabet'][t]) <= 6)
         with open(os.path.join(wd, 'EM.tla'), 'w') as f:
             f.write('---- MODULE EM ----\nEXTENDS ElementMC\nEMTypes == %s\nEMSigma == %s\n====\n' % (
                 campaign.tset(types), campaign.fun([(t, plans[t]['rem']) for t in types], campaign.tset)))
